@@ -149,6 +149,15 @@ func LoadConfig(args []string, cwd string) (*ServerConfig, error) {
 		return nil, fmt.Errorf("parsing cli: %v", err)
 	}
 
+	// The flag --livewindow sets the key livewindowS
+	if f.Changed("livewindow") {
+		lw, _ := f.GetInt("livewindow")
+		err = k.Load(confmap.Provider(map[string]any{"livewindowS": lw}, "."), nil)
+		if err != nil {
+			return nil, err
+		}
+	}
+
 	// Overload with environment variables
 	err = k.Load(env.Provider("LIVESIM_", ".", func(s string) string {
 		return strings.ReplaceAll(strings.ToLower(
